@@ -352,7 +352,7 @@ def validators_part(ctx, progs, stats):
         order = sorted(cands, key=lambda s: (s["fn"] != "runtime", progs[s["prog"]]["entry"].get("prio", 1) if s["fn"] == "runtime" else 0))
         for s in order:
             k = (s["pass"], s["fn"] == "runtime")
-            if per.get(k, 0) < (7 if s["fn"] == "runtime" else 4) and s not in chosen:
+            if per.get(k, 0) < (5 if s["fn"] == "runtime" else 3) and s not in chosen:
                 per[k] = per.get(k, 0) + 1
                 chosen.append(s)
         cands = chosen
